@@ -2394,7 +2394,7 @@ SKIP_FNS = {('InlineWakerArray', 'new'), ('InlineWakerVec', 'new')}
 GROUPS = {'Std': ['StdArr', 'StdVec'], 'Dir': ['DirArr', 'DirVec'], 'Idx': ['Idx'], 'PS': ['PS'], 'Grp': ['GrpF', 'GrpS'],
           'Fam': ['MergeV', 'RaceV'], 'Fam2': ['JoinV'], 'Fam3': ['TryJoinV'], 'Fam4': ['ZipV'], 'Fam5': ['ChainV'],
           'Arr1': ['JoinA'], 'Arr2': ['TryJoinA'], 'Arr3': ['MergeA'], 'Arr4': ['ZipA'], 'Arr5': ['ChainA'], 'Arr6': ['RaceA'], 'Arr7': ['RaceOkA'], 'Wait': ['WaitF', 'WaitS']}
-GROUP_IMPORTS = {'Std': ['Fc.Kernel'], 'Grp': ['FcGen.KSrcStd', 'FcGen.KSrcPS', 'Fc.RustEnv'],
+GROUP_IMPORTS = {'Std': ['Fc.Kernel'], 'Dir': ['Fc.Kernel'], 'Grp': ['FcGen.KSrcStd', 'FcGen.KSrcPS', 'Fc.RustEnv'],
                  'Fam': ['FcGen.KSrcStd', 'FcGen.KSrcPS', 'FcGen.KSrcIdx', 'Fc.RustEnv'],
                  'Fam2': ['FcGen.KSrcStd', 'FcGen.KSrcPS', 'Fc.RustEnv'],
                  'Fam3': ['FcGen.KSrcStd', 'FcGen.KSrcPS', 'Fc.RustEnv'],
@@ -2411,10 +2411,44 @@ GROUP_DEPS = {'Grp': ['Std', 'PS'], 'Fam': ['Std', 'PS', 'Idx'], 'GrpPoll': ['Gr
               # import that family's Vec statements, hence its generated file)
               'JoinA': ['Arr1', 'Fam2'], 'TryJoinA': ['Arr2', 'Fam3'], 'MergeA': ['Arr3', 'Fam'], 'ZipA': ['Arr4'],
               'ChainA': ['Arr5', 'Idx'], 'RaceA': ['Arr6', 'Fam'], 'RaceOkA': ['Arr7']}
+# generated groups that also exist in the no_std / alloc-only flavour (group name + 'D', namespaces + 'D')
+DIR_FLAVOUR = {'Fam': ['MergeV', 'RaceV'], 'Fam2': ['JoinV'], 'Fam3': ['TryJoinV'], 'Fam4': ['ZipV'],
+               'Arr1': ['JoinA'], 'Arr2': ['TryJoinA'], 'Arr3': ['MergeA'], 'Arr4': ['ZipA']}
 # groups of tie theorems that have no generated file of their own (they talk about functions of another group's file)
 VIRTUAL_GROUPS = {'GrpPoll': ['GrpF', 'GrpS'], 'RaceV': ['RaceV'], 'MergeV': ['MergeV'], 'JoinV': ['JoinV'], 'ChainV': ['ChainV'], 'ZipV': ['ZipV'], 'TryJoinV': ['TryJoinV'],
                   'JoinA': ['JoinA'], 'TryJoinA': ['TryJoinA'], 'MergeA': ['MergeA'], 'ZipA': ['ZipA'], 'ChainA': ['ChainA'],
                   'RaceA': ['RaceA'], 'RaceOkA': ['RaceOkA']}
+# the no_std / alloc-only builds compile the SAME family sources against src/utils/wakers/{vec,array}/no_std.rs: the readiness
+# set has no flags and `WakerVec::get` / `WakerArray::get` hand out the stored parent waker itself
+WAKERDIR_PRELUDE = '''/-- hand-written model of the no_std `WakerVec` (utils/wakers/vec/no_std.rs): a wrapper of the flag-less readiness set;
+    `get` is `self.readiness.parent_waker()` — every child is handed the caller's own waker -/
+structure WakerVecD where
+  readiness : DirVec.ReadinessVec
+
+def WakerVecD.new (len : Nat) : Option WakerVecD := do
+  let r ← DirVec.ReadinessVec.new
+  pure { readiness := r }
+
+def WakerVecD.resize (self : WakerVecD) (len : Nat) : Option (WakerVecD × Unit) := do
+  let (r, _) ← DirVec.ReadinessVec.resize self.readiness len
+  pure ({ readiness := r }, ())
+
+def WakerVecD.get (self : WakerVecD) (index : Nat) : Option Wk := do
+  let p ← DirVec.ReadinessVec.parent_waker_fn self.readiness
+  p.map Wk.par
+
+/-- hand-written model of the no_std `WakerArray<N>` (utils/wakers/array/no_std.rs) -/
+structure WakerArrayD where
+  readiness : DirArr.ReadinessArray
+
+def WakerArrayD.new (N : Nat) : Option WakerArrayD := do
+  let r ← DirArr.ReadinessArray.new N
+  pure { readiness := r }
+
+def WakerArrayD.get (N : Nat) (self : WakerArrayD) (index : Nat) : Option Wk := do
+  let p ← DirArr.ReadinessArray.parent_waker_fn N self.readiness
+  p.map Wk.par
+'''
 # src/utils/wakers/vec/waker_vec.rs (std) is Arc / closure glue around the readiness set: modelled by hand here —
 # a table of `len` sub-wakers next to the shared set; `resize` resizes both
 WAKERVEC_PRELUDE = '''/-- hand-written model of `WakerVec` (utils/wakers/vec/waker_vec.rs, std): `nwakers` sub-wakers + the shared set -/
@@ -2446,7 +2480,7 @@ def WakerArray.get (N : Nat) (self : WakerArray) (index : Nat) : Option Wk :=
   if index < N then some (.sub index) else none
 '''
 GROUP_PRELUDE = {}
-GROUP_POSTLUDE = {'Std': WAKERVEC_PRELUDE}
+GROUP_POSTLUDE = {'Std': WAKERVEC_PRELUDE, 'Dir': WAKERDIR_PRELUDE}
 # the functions each group of tie theorems (lean/FcProps/KTie<group>.lean) talks about
 REQUIRED = {
     'Std': ['StdArr.ReadinessArray.' + f for f in ('new', 'set_ready', 'clear_ready', 'set_all_ready', 'any_ready',
@@ -2695,7 +2729,32 @@ def translate(repo):
         out += GROUP_POSTLUDE.get(g, "").splitlines() + ([""] if g in GROUP_POSTLUDE else [])
         out.append("end Fc.Src")
         texts[g] = "\n".join(out) + "\n"
-    for g in list(GROUPS) + list(VIRTUAL_GROUPS):
+    # ---- the no_std / alloc-only flavour of the families that hold a waker table: the SAME translated source, compiled
+    # against the flag-less readiness set of no_std.rs (what `#[cfg(not(feature = "std"))]` selects in utils/wakers)
+    for g, nss in DIR_FLAVOUR.items():
+        if g not in texts:
+            continue
+        t = texts[g]
+        t = t.replace("import FcGen.KSrcStd", "import FcGen.KSrcDir")
+        t = re.sub(r"\(fun i r => StdVec\.InlineWakerVec\.wake ⟨i⟩ r\)", "(fun _ r => some (r, [], ()))", t)
+        t = re.sub(r"\(fun i r => StdArr\.InlineWakerArray\.wake \w+ ⟨i⟩ r\)", "(fun _ r => some (r, [], ()))", t)
+        t = t.replace("StdVec.ReadinessVec", "DirVec.ReadinessVec").replace("StdArr.ReadinessArray", "DirArr.ReadinessArray")
+        t = re.sub(r"\bWakerVec\b", "WakerVecD", t)
+        t = re.sub(r"\bWakerArray\b", "WakerArrayD", t)
+        for ns in nss:
+            t = re.sub(r"^(namespace|end) %s$" % ns, r"\1 %sD" % ns, t, flags=re.M)
+        t = t.replace("/- GENERATED by tools/rs2lean.py from the current source of the crate — do not edit. -/",
+                      "/- GENERATED by tools/rs2lean.py from the current source of the crate — do not edit.\n"
+                      "   no_std / alloc-only flavour: the text of FcGen/KSrc%s.lean with the waker module of no_std.rs. -/" % g)
+        texts[g + 'D'] = t
+    for g in list(GROUPS) + list(VIRTUAL_GROUPS) + [g + 'D' for g in DIR_FLAVOUR]:
+        if g.endswith('D') and g[:-1] in DIR_FLAVOUR:
+            base = report['groups'].get(g[:-1], {})
+            dirg = report['groups'].get('Dir', {})
+            ok = bool(base.get('available')) and bool(dirg.get('available')) and (g in texts)
+            report['groups'][g] = {'available': ok, 'missing': base.get('missing', []),
+                                   'why': list(base.get('why', [])) + ([] if dirg.get('available') else ['needs group Dir, which is unavailable'])}
+            continue
         nss = GROUPS.get(g) or VIRTUAL_GROUPS[g]
         missing = [f for f in REQUIRED[g] if f not in report['translated']]
         why = [f"{i}: {w}" for i, w in report['failed'] if i.split(':')[0].split('.')[0] in nss]
